@@ -25,7 +25,7 @@ def make_wallet(keys, wallet_keys):
     return w
 
 
-def spend_event(world, rec, wallet, wallet_keys, amount, fee, recipient, change_key):
+def spend_event(world, rec, wallet, wallet_keys, amount, fee, recipient, change_key, truth=None):
     import skepticoin.wallet as W
     import skepticoin.consensus as c
     from skepticoin.signing import SECP256k1PublicKey
@@ -57,6 +57,12 @@ def spend_event(world, rec, wallet, wallet_keys, amount, fee, recipient, change_
         ev["res"] = "insufficient" if "Insufficient balance" in str(e) else "error"
         ev["error"] = repr(e)[:200]
     ev["used_after"] = rows(wallet.spent_transaction_outputs)
+    # what earlier spends of this wallet really used, from the transactions it returned (independent of its own record)
+    ev["used_truth"] = sorted(truth) if truth is not None else ev["used_before"]
+    if truth is not None and ev["res"] == "tx":
+        for i in ev["tx"]["ins"]:
+            truth.add((i["ref"]["tx"], i["ref"]["idx"]))
+    ev["used_truth"] = [list(x) for x in ev["used_truth"]]
     return ev
 
 
@@ -101,10 +107,11 @@ def run(pid, tier, replay=None):
         bal = sum(cs.at_head.public_key_balances[SECP256k1PublicKey(keys.pub[k])].value
                   for k in wallet_keys if SECP256k1PublicKey(keys.pub[k]) in cs.at_head.public_key_balances)
         lab = []
+        truth = set()
         for _ in range(rng.randint(2, 6)):
             amount = max(1, rng.choice([1, 2, bal // 2, bal - 1, bal, bal + 1, bal + 5, rng.randint(1, max(1, bal + 2))]))
             fee = rng.choice([0, 0, 1, 2])
-            ev = spend_event(w, rec, wallet, wallet_keys, amount, fee, rng.choice([4, 4, 1]), rng.choice([2, 3]))
+            ev = spend_event(w, rec, wallet, wallet_keys, amount, fee, rng.choice([4, 4, 1]), rng.choice([2, 3]), truth=truth)
             rec.events.append(ev)
             rec.abstract.append({"act": "spend", "amount": amount, "fee": fee, "balance": bal, "res": ev["res"]})
             lab.append((amount, fee, ev["res"]))
